@@ -303,6 +303,7 @@ func IsBoolNode(n Node) bool {
 //@ ensures [C02] sign-open-when-asked: (n.op == UnaryPlus || n.op == UnaryMinus) && withParens ==> outFirst() == any(rune('('))
 //@ ensures [C02] own-parens-with-chain: (n.op == UnaryPlus || n.op == UnaryMinus || n.op == UnaryNot || n.op == UnaryExists || n.op == UnaryIsUnknown) && n.next != nil ==> outFirst() == any(rune('('))
 //@ ensures [C02] is-unknown-brackets: n.op == UnaryIsUnknown ==> outFirst() == any(rune('('))
+//@ ensures [C02] datetime-argument-printed-as-its-own-text: n.op >= UnaryDateTime && n.operand != nil ==> outFirst() == any(n.op.String() + "(" + n.operand.String() + ")")
 
 //@ func (*numberNode).writeTo
 //@ props C02
